@@ -92,6 +92,7 @@ class Registry:
         self.lemmas: dict[str, Lemma] = {}
         self.axioms: list[tuple[str, str]] = []  # (name, clause) trusted axioms: listed in evidence
         self.records: dict = {}
+        self.deffns: dict = {}  # name -> (params, body, group, ret): defined (non-recursive) spec functions
         self.record_defaults: dict = {}
         self.consts: dict = {}
 
@@ -114,6 +115,9 @@ class Registry:
 
     def ghostfn(self, name, args, ret):
         self.ghostfns[name] = GhostFn(name, args, ret)
+
+    def deffn(self, name, params, body, group="", ret="bool"):
+        self.deffns[name] = (params, body, group, ret)
 
     def lemma(self, name, vars, body, **kw):
         self.lemmas[name] = Lemma(name, vars, body, **kw)
